@@ -450,6 +450,14 @@ def m_delitem(I, rl, args, kw):
     return None
 
 
+def m_pop(I, rl, args, kw):
+    """l.pop(i=-1): the element at i, then del l[i] (IndexError on an empty list / out-of-range index)"""
+    idx = args[0] if args else -1
+    x = m_getitem(I, rl, [idx], {})
+    m_delitem(I, rl, [idx], {})
+    return x
+
+
 def m_getitem(I, rl, args, kw):
     ctx = I.ctx
     idx = I.force(args[0])
@@ -722,6 +730,7 @@ def install(reg):
     T[("intbag", "__radd__")] = lambda I, o, a, k: _bag_concat(I, o, a[0], True)
     T[("reflist", "__delitem__")] = m_delitem
     T[("reflist", "__getitem__")] = m_getitem
+    T[("reflist", "pop")] = m_pop
     T[("reflist", "__len__")] = lambda I, o, a, k: b_len(I, o)
     T[("reflist", "copy")] = lambda I, o, a, k: b_list(I, o)
     def set_minmax(is_max):
